@@ -959,6 +959,7 @@ def classify_mismatch(idx, o, sel, got, exp, pls, sigs):
             cr2.pop("a", None)
         return sat(s, cr2, pls)
 
+    relax = _order_relax(relax)
     for r in range(1, len(relax) + 1):
         for combo in itertools.combinations(relax, r):
             on = {c[0] for c in combo}
@@ -972,6 +973,14 @@ def classify_mismatch(idx, o, sel, got, exp, pls, sigs):
             if sorted(key(s) for s in alt) == got:
                 return [(idx, c[1], msg + c[2]) for c in combo]
     return [(idx, f"C12:selection-mismatch:{kind}", msg)]
+
+
+def _order_relax(relax):
+    """explanations by a KNOWN finding are tried before those by a repaired one: when a same-name same-md5 twin that
+    differs only in abundance comes back from a standalone SQLite manifest, both 'abund ignored' (repaired, 73316d8)
+    and 'reloaded by (name, md5)' (known C12.3) reproduce the observation; the latter is what the code does"""
+    first = [c for c in relax if c[0] == "namemd5"]
+    return first + [c for c in relax if c[0] != "namemd5"]
 
 
 def nontrivial(case, impl):
